@@ -837,10 +837,16 @@ class Repository:
             future = loop.run_in_executor(loader, _download_snapshot, path)
             future_to_path[future] = path
 
-        async for task in utils.as_completed(future_to_path):
-            if (body := await task) is None:
-                continue
-            yield future_to_path[task], body
+        try:
+            async for task in utils.as_completed(future_to_path):
+                if (body := await task) is None:
+                    continue
+                yield future_to_path[task], body
+        finally:
+            # Loader threads call back into this event loop. If a download failed or
+            # the caller stopped early, don't leave them waiting for it forever
+            loader.shutdown(wait=False, cancel_futures=True)
+            await asyncio.gather(*future_to_path, return_exceptions=True)
 
     def _extract_snapshot_size(self, snapshot_data):
         files = snapshot_data['files']
@@ -1584,12 +1590,20 @@ class Repository:
                     self.restore_metadata(restore_path, metadata)
                     finished_tracker.update()
 
-            await asyncio.gather(
-                *(
-                    loop.run_in_executor(loader, _download_chunk, *x)
-                    for x in chunks_references.items()
-                )
-            )
+            downloads = [
+                loop.run_in_executor(loader, _download_chunk, *x)
+                for x in chunks_references.items()
+            ]
+            try:
+                await asyncio.gather(*downloads)
+            except Exception:
+                # Loader threads call back into this event loop (to get a slot or to
+                # run async backend methods). Don't start what hasn't been started yet
+                # and let the running ones finish before the error leaves this loop,
+                # otherwise they'd wait forever for a loop that is no longer running
+                loader.shutdown(wait=False, cancel_futures=True)
+                await asyncio.gather(*downloads, return_exceptions=True)
+                raise
 
         return utils.DefaultNamespace(files=list(files_digests))
 
